@@ -519,9 +519,26 @@ func (w *mdWorker) run(bi int, beh []map[string]any, delay time.Duration) (o mdO
 		}
 		return ok
 	}
+	// A connection whose tick ended its subscription while the writer was parked inside a broadcast (holding the hub's
+	// read lock) may or may not still get that broadcast's publication, depending on where the hub's iteration stood:
+	// for that connection a publication directly in front of the unsubscribe push is not compared.
+	lenient := map[string]bool{}
+	strip := func(fr []mdFrame) []mdFrame {
+		var out []mdFrame
+		for i, f := range fr {
+			if f.T == "pub" && i+1 < len(fr) && fr[i+1].T == "unsub" {
+				continue
+			}
+			out = append(out, f)
+		}
+		return out
+	}
 	matches := func(st map[string]any) (bool, string) {
 		for _, s := range subs {
 			real, mo := mdNorm(r.project(s)), mdNorm(mdModelOut(st, s))
+			if lenient[s] {
+				real, mo = strip(real), strip(mo)
+			}
 			if !sameMdFrames(real, mo) {
 				return false, fmt.Sprintf("%s: real %s, model %s", s, vh.J(real), vh.J(mo))
 			}
@@ -757,7 +774,15 @@ func (w *mdWorker) run(bi int, beh []map[string]any, delay time.Duration) (o mdO
 				o.nontrivial = true
 			}
 			o.counts["tickone_"+res]++
-			tickJudge = performed && res != "error" && (!opts.Shared || tickUniform)
+			callerStale := false
+			if _, pos := mdLiveAt(r.project(s)); pos != uint64(r.top) {
+				callerStale = true // the verdict of a shared check is the caller's: a stale caller ends everybody
+			}
+			tickJudge = performed && res != "error" && (!opts.Shared || tickUniform || callerStale)
+			if vh.Str(st["wpc"]) == "busy" {
+				lenient[s] = true
+				o.counts["tick_while_writer_parked"]++
+			}
 			tickOnly = ""
 			if !(opts.Shared && vh.Bool(st["med"])) {
 				tickOnly = s // without the shared check a tick compares (and ends) only the caller's subscription
